@@ -40,6 +40,7 @@ type ProcSpec struct {
 	Plan     verifsim.FaultPlan
 	Base     time.Time
 	ZoneMin  int
+	ZoneName string
 	Root     string
 	Stdin    string
 	Cpus     int
@@ -202,7 +203,7 @@ func runProc(spec *ProcSpec) (res ProcResult) {
 		s := verifsim.New()
 		s.Base = spec.Base
 		s.BubbleStart = time.Now()
-		s.Zone = time.FixedZone("SIM", spec.ZoneMin*60)
+		s.Zone = location(spec.ZoneMin, spec.ZoneName)
 		s.Tape = &verifsim.Tape{Vals: spec.Tape}
 		s.MapTape = &verifsim.Tape{Vals: spec.MapTape}
 		s.MapOrder = spec.MapOrder
